@@ -27,7 +27,8 @@ def setup_set_options(ex, st):
     until = fresh(Opt(INT), "until_arg")[0]
     ns = Ref("Namespace")
     st.heap[ns.oid] = {"log_level": "info", "is_create_sql": fresh(BOOL, "create")[0], "is_gui": False, "validate_until": until, "plugins_folder": None,
-                       "data_paths": Opaque(), "cid_path": fresh(STR, "cid_path")[0]}
+                       "data_paths": None, "cid_path": fresh(STR, "cid_path")[0]}
+    dp, c = fresh(UFList(STR), "data_paths"); st.pc.extend(c); st.heap[ns.oid]["data_paths"] = dp; st.ghost["data_paths"] = dp; st.ghost["cid_path"] = st.heap[ns.oid]["cid_path"]
     app = Ref("CutplaceApp")
     st.heap[app.oid] = {"_log": Ref("Logger"), "cid": None, "cid_encoding": "utf-8", "cid_path": None, "is_gui": False, "is_create_sql": False, "data_paths": None,
                         "last_validation_was_ok": False, "all_validations_were_ok": True, "validate_until": None}
@@ -47,10 +48,16 @@ def unit_set_options():
                                     z3.Not(z3.And(z3.Not(OI.is_none(u)), OI.val(u) < -1))))
         def bad_until(ex, st):
             u = G(st, "until_arg")
-            return Sym(BOOL, z3.Or(z3.BoolVal(not st.ghost["parser_error"]), z3.And(z3.Not(OI.is_none(u)), OI.val(u) < -1)))
+            dp = st.ghost["data_paths"]; j = z3.Int("j!dp")
+            empty_name = z3.Or(G(st, "cid_path") == "", z3.Exists([j], z3.And(0 <= j, j < dp.length, dp.at(j) == z3.StringVal(""))))
+            return Sym(BOOL, z3.Or(z3.BoolVal(not st.ghost["parser_error"]), z3.And(z3.Not(OI.is_none(u)), OI.val(u) < -1), empty_name))
+        def no_empty_name(ex, st):
+            dp = st.ghost["data_paths"]; j = z3.Int("j!dq")
+            return Sym(BOOL, z3.And(G(st, "cid_path") != "", z3.ForAll([j], z3.Implies(z3.And(0 <= j, j < dp.length), dp.at(j) != z3.StringVal("")))))
         c = Contract("applications.CutplaceApp.set_options", setup_set_options,
-                returns=[Clause(mapping, "--until-N-maps-to-the-API's-validation-limit:-1-means-no-limit-N>=0-means-N", props=["C07", "C18"])],
-                raises={"SystemExit": [Clause(bad_until, "arguments-are-refused-(exit-2)-only-by-argparse-or-for---until-below--1", props=["C07", "C18"])], "InterfaceError": [], "OSError": []},
+                returns=[Clause(mapping, "--until-N-maps-to-the-API's-validation-limit:-1-means-no-limit-N>=0-means-N", props=["C07", "C18"]),
+                         Clause(no_empty_name, "accepted-arguments-name-no-empty-file", props=["C18", "C10"])],
+                raises={"SystemExit": [Clause(bad_until, "arguments-are-refused-(exit-2)-only-by-argparse-for---until-below--1-or-for-an-empty-file-name", props=["C07", "C18"])], "InterfaceError": [], "OSError": []},
                 expect=["return", "SystemExit"], n_loops=0)
         return {"contract": c, "callees": {"builtin:argparse.ArgumentParser": m_argument_parser, "ref:ArgumentParser.add_argument": m_add_argument, "ref:ArgumentParser.parse_args": m_parse_args,
                                            "ref:ArgumentParser.error": m_parser_error, "interface.import_plugins": ModelContract(m_noop), "applications.CutplaceApp.set_cid_from_path": ModelContract(m_set_cid)},
@@ -354,6 +361,15 @@ def unit_c18_table():
                     except SystemExit as e: rc = ("exit", e.code)
                 return None if rc == 1 else {"expected": "exit 1 (the CID is rejected)", "observed": "exit %r" % (rc,)}
             r5 = sweep("C18/table/a damaged CID file is a rejected CID (exit 1)", dcases(), dcheck, "bounded", "5 damaged CID files (ods, xlsx, csv)", describe=lambda c: {"cid file": c[0]}, function="applications.main", unit="C18.table")
+            # an empty file name is a name that cannot be read (3) or an unusable argument (2), never an internal failure
+            def ncases():
+                yield [""]; yield [cids["valid"], ""]; yield [cids["valid"], files["accepted"][0], ""]; yield ["--until", "1", cids["valid"], ""]
+            def ncheck(args):
+                with contextlib.redirect_stderr(io.StringIO()):
+                    try: rc = applications.main(["cutplace"] + list(args))
+                    except SystemExit as e: rc = ("exit", e.code)
+                return None if rc in (3, ("exit", 2)) else {"expected": "exit 3 (file cannot be read) or 2 (unusable argument)", "observed": "exit %r" % (rc,)}
+            r7 = sweep("C18/table/an empty file name", ncases(), ncheck, "bounded", "4 argument lists with an empty CID or data file name", describe=lambda a: {"argv": list(a)}, function="applications.main", unit="C18.table", props=["C18", "C10"])
             # a file that cannot be read stays "cannot be read" (3) also when the CID has an end-of-data check that fails on zero rows
             ecid = w("ecid.csv", "d,format,delimited\nf,id,,,,Integer\nf,name\nc,some,DistinctCount,name >= 1\n")
             def ecases():
@@ -376,7 +392,7 @@ def unit_c18_table():
                     except SystemExit as e: rc = ("exit", e.code)
                 return None if rc == ("exit", 2) else {"expected": "argument error, exit code 2", "observed": repr(rc)}
             r2 = sweep("C18/table/unusable arguments exit with 2", argcases(), argcheck, "bounded", "4 unusable argument lists", function="applications.main", unit="C18.table")
-            return [r1, r2, r3, r4, r5]
+            return [r1, r2, r3, r4, r5, r7]
         finally:
             shutil.rmtree(tmp, ignore_errors=True)
     return NativeUnit("C18.table", "bounded end-to-end table of exit codes through applications.main (in-process)", ["C18"], run, kind="bounded")
